@@ -891,3 +891,24 @@ def g_layer_indep(rng, level=0, n_random=250):
             pos += n
         q = tuple(sorted(int(x) for x in rng.choice(N, size=int(rng.integers(1, min(N, 3) + 1)), replace=False)))
         yield {'self': ci.CliffordLayer(*gates), 'other_gate': ci.CliffordGate(*q)}
+
+
+def _rand_mono(rng, N):
+    pa, _ = _pc()
+    m = pa.PauliMonomial(bits(rng, 2 * N), int(rng.integers(0, 4)))
+    m.c = complex(rng.normal(), rng.normal())
+    return m
+
+
+@gen(PA + 'PauliMonomial.__neg__')
+@gen(PA + 'PauliMonomial.copy')
+@gen(PA + 'PauliMonomial.as_polynomial')
+def g_mono1(rng, level=0, n_random=100):
+    for _ in range(n_random):
+        yield {'self': _rand_mono(rng, int(rng.integers(1, 4)))}
+
+
+@gen(PA + 'PauliMonomial.__rmul__')
+def g_mono_rmul(rng, level=0, n_random=100):
+    for _ in range(n_random):
+        yield {'self': _rand_mono(rng, int(rng.integers(1, 4))), 'c': complex(rng.normal(), rng.normal())}
